@@ -202,7 +202,12 @@ func (rs *bodyStream) Read(p []byte) (int, error) {
 	}
 
 	if conn, ok := rs.reader.(io.Reader); ok {
-		m, err = conn.Read(p[n:])
+		if rs.contentLength >= 0 {
+			// never read past the end of a fixed-length body
+			m, err = conn.Read(p[n : n+m])
+		} else {
+			m, err = conn.Read(p[n:])
+		}
 	} else {
 		var tmp []byte
 		tmp, err = rs.reader.Peek(m)
